@@ -157,7 +157,7 @@ class FormulaSpace:
             elif a2 and a2[0] == "localbool":
                 fa = self.atom(("imported",) + a2 + (getattr(getattr(other, "fn", None), "stable", ""),))
             else:
-                fa = self.formula(a2, (0, 0)) if a2[0] in ("bin", "not", "const") else self.atom(a2)
+                fa = self.formula(a2, (0, 0)) if a2[0] in ("bin", "not", "const", "call") else self.atom(a2)
             r = self.bdd.ITE(fa, rec(hi), rec(lo))
             memo[n] = r
             return r
@@ -260,6 +260,56 @@ class PathA(FormulaSpace):
         if len(b.vars) != n:
             self.atom_keys[n] = self.fa.mem_keys(e)
         return v
+
+    # ------------------------------------------------------------------ small pure predicates are transparent
+    def formula(self, e, point, env=None, pc=None):
+        if isinstance(e, tuple) and e and e[0] == "call" and len(e) > 4 and e[4] and e[3] is None:
+            f = self._inline_predicate(e)
+            if f is not None:
+                return f
+        return FormulaSpace.formula(self, e, point, env, pc)
+
+    def _inline_predicate(self, e):
+        """A call of a small, effect-free, bool-returning workspace helper that no rule refers to by name is replaced by the
+        helper's own return formula (so extracting a condition into a function, or not, reads the same)."""
+        stable = e[4]
+        if stable.rsplit("::", 1)[-1] in named_in_rules():
+            return None
+        callee = self.world.fn(stable)
+        if callee is None or callee.kind not in ("fn", "method") or callee.locals[0]["ty"] != "bool" or len(callee.blocks) > 60:
+            return None
+        if callee.argc != len(e[2]) or stable == self.fn.stable or stable in _inline_stack or len(_inline_stack) >= 3:
+            return None
+        from .effects import effects_of
+        eff = effects_of(self.world)
+        if eff.W(callee.id) or eff.WW(callee.id):
+            return None
+        _inline_stack.append(stable)
+        try:
+            cpa = patha_of(self.world, callee)
+            rt = cpa.ret_true()
+            rf = cpa.ret_false()
+            if not cpa.equivalent(rf, cpa.bdd.NOT(rt)):
+                return None
+            for a in cpa.atoms_of(rt):
+                for x in walk(a):
+                    if x[0] in ("var", "upvar", "unknown", "resume", "localbool", "imported"):
+                        return None
+                    if x[0] == "call" and x[3] is not None:
+                        return None
+            args = e[2]
+
+            def mapping(x):
+                if isinstance(x, tuple) and x and x[0] == "param" and 1 <= x[1] <= len(args):
+                    return args[x[1] - 1]
+                if isinstance(x, tuple) and x and x[0] == "old":
+                    return subst(x[1], mapping)
+                return None
+            return self.import_formula(cpa, rt, mapping)
+        except Exception:
+            return None
+        finally:
+            _inline_stack.pop()
 
     def _hit(self, evkeys, akeys):
         for k in evkeys:
@@ -572,6 +622,23 @@ class PathA(FormulaSpace):
         return res
 
 _pa_cache = {}
+_inline_stack = []
+_named = []
+
+
+def named_in_rules():
+    """Identifiers that occur in the rule sources: helpers the rules speak about by name stay opaque atoms."""
+    if not _named:
+        import glob
+        import os
+        import re
+        here = os.path.dirname(os.path.abspath(__file__))
+        toks = set()
+        for p in glob.glob(os.path.join(here, "rules", "*.py")) + [os.path.join(here, "linkpred.py"), os.path.join(here, "ctx.py")]:
+            with open(p) as fh:
+                toks.update(re.findall(r"[A-Za-z_][A-Za-z0-9_]*", fh.read()))
+        _named.append(toks)
+    return _named[0]
 
 
 def patha_of(world, fn):
